@@ -193,11 +193,11 @@ def on_grid(kind="decimal", tier="quick"):
     rates = [1, 2, 3, 4, 7, 10, 100, 1000] if tier == "quick" else [1, 2, 3, 4, 5, 6, 7, 8, 10, 16, 20, 50, 60, 100, 128, 1000, 10000, 100000]
     exact_rates = []
     for tp in rates:
-        dom = A.FPX()
+        dom = A.FPX(bw=32)
         k = dom.int_var("k")
         a = dom.arith("/", k, tp) if kind == "decimal" else A.ev(gentrace_expr(), gentrace_env(dom, k, tp))
         d = delivered(dom, a, k, tp)
-        cons = [k.t >= 0, k.t <= 2_000_000, z3.Not(d.t)]
+        cons = [k.t >= 0, k.t <= 1_000_000, z3.Not(d.t)]
         r, m = solve(res, cons, 90000 if tier == "thorough" else 40000)
         if r == "sat":
             kv = A.bv_to_py(m, k.t)
@@ -209,5 +209,5 @@ def on_grid(kind="decimal", tier="quick"):
         if r == "unsat":
             exact_rates.append(tp)
     if len(exact_rates) == len(rates):
-        return res.out("discharged", f"on-grid ({kind}) arrivals delivered in their own tick: FPX unsat for k in [0,2e6] at rates {rates}")
+        return res.out("discharged", f"on-grid ({kind}) arrivals delivered in their own tick: FPX unsat for k in [0,1e6] at rates {rates}")
     return res.out("inconclusive", f"FPX decided only rates {exact_rates} of {rates}")
